@@ -396,6 +396,19 @@ def check_class(run, repo, eff, fr, ci, fams, encs):
                     bad('C02-X', 'monitor address', 'the monitor is given `%s`, not the access address' % (fmt(a[0])[:120] if a else '-'))
                 elif a[1] != const(fam.size):
                     bad('C02-X', 'monitor size', 'the monitor is given size %s but the access transfers %d bytes' % (fmt(a[1]), fam.size))
+            if fam.load and fam.size == 8:
+                # LDREXD: if address<2:0> != '000' then AlignmentFault(address, FALSE) - explicit, because MemA aligns down in the legacy model
+                af = [e for e in evs if e.kind == 'ProcCall' and e.d['method'] == 'alignment_fault']
+                want_g = ('cmp', 'NotEq', low(tp.address[0], 3), const(0))
+                if len(af) != 1:
+                    bad('C02-X', 'doubleword alignment fault', 'LDREXD must raise an alignment fault for an address that is not doubleword aligned')
+                else:
+                    a = [N(x, asg) for x in af[0].d['args']]
+                    if len(a) != 2 or repr(a[0]) not in addr_ok or a[1] != const(False):
+                        bad('C02-X', 'alignment fault arguments', 'AlignmentFault(address, FALSE) expected; found (%s)' % ', '.join(fmt(t) for t in a))
+                    if not guard_has(af[0].guards, lambda t: norm(t) == want_g, True):
+                        bad('C02-X', 'doubleword alignment test', 'the fault must be raised exactly when address<2:0> != 000; found guard `%s`' % (
+                            ' & '.join(fmt(norm(g))[:60] for g, p_, _ in af[0].guards[-1:])))
             if not fam.load:
                 is_pass = lambda t: t[0] == 'pcall' and t[1] == 'exclusive_monitors_pass'
                 for e in mems:
@@ -595,7 +608,7 @@ def main(repo_path, tier, seed, replay=None):
     from . import c17_arith
     sub = Run('tmp')
     c17_arith.check_arith(sub, repo)
-    used = ('add', 'sub', 'shift_c', 'lsl_c', 'lsr_c', 'asr_c', 'ror_c', 'sign_extend', 'to_signed', 'to_unsigned')
+    used = ('add', 'sub', 'shift_c', 'shift', 'lsl_c', 'lsr_c', 'asr_c', 'ror_c', 'sign_extend', 'to_signed', 'to_unsigned')
     hb = [f for f in sub.findings if f.func in used]
     for f in hb:
         run.violation('C02-H', f.file, f.func, f.construct, f.message, f.detail)
